@@ -11,7 +11,8 @@ PROPERTY_ID = 'C03'
 TOL = 1e-10
 
 RULE = ('Hypothesis draws a TT (order 1..5, vector or operator, real/complex, mode sizes 1..3, ranks 1..5 incl. '
-        'over-parameterised), a core class (generic / exactly rank-deficient cores built from thin factors / a zero core), '
+        'over-parameterised), a core class (generic / exactly rank-deficient cores built from thin factors / a zero core / the same '
+        'ndarray object used for several cores), '
         'memory layout, the sweep (ortho_left, ortho_right, ortho) and, for the one-sided sweeps, every admissible '
         '(start,end) pair uniformly; entries from default_rng(seed). Invariants checked on before/after snapshots: dense value '
         'equal, processed cores are isometries on their side (Gram = I), no rank increases, metadata consistent, cores outside '
@@ -31,7 +32,7 @@ def ortho_case(draw):
     if d > 1 and draw(st.booleans()):
         # widen one bond well beyond what the neighbouring cores can support
         a['ranks'][draw(st.integers(1, d - 1))] = draw(st.sampled_from([4, 5, 6]))
-    klass = draw(st.sampled_from(['generic', 'generic', 'deficient', 'zero_core']))
+    klass = draw(st.sampled_from(['generic', 'generic', 'deficient', 'zero_core', 'aliased_cores']))
     a['klass'] = klass
     a['which'] = draw(st.integers(0, d - 1))
     sweep = draw(st.sampled_from(['left', 'right', 'both']))
@@ -62,6 +63,15 @@ def make(spec):
         cores[i] = np.tensordot(f1, f2, axes=([3], [0]))
     elif spec['klass'] == 'zero_core':
         cores[i] = np.zeros_like(cores[i])
+    elif spec['klass'] == 'aliased_cores':
+        # the same ndarray object is used for every core of equal shape (e.g. a product state built as TT([c] * d))
+        seen = {}
+        for j, c in enumerate(cores):
+            key = (c.shape, c.dtype.str)
+            if key in seen:
+                cores[j] = seen[key]
+            else:
+                seen[key] = c
     return TT(cores)
 
 
@@ -135,10 +145,10 @@ def body_ortho(case):
 
 
 def nt(labels):
-    return bool({'deficient', 'zero_core', 'overparam', 'complex', 'size1mode', 'partial', 'order1', 'mixed_size1'} & set(labels))
+    return bool({'deficient', 'zero_core', 'aliased_cores', 'overparam', 'complex', 'size1mode', 'partial', 'order1', 'mixed_size1'} & set(labels))
 
 
 SUBCHECKS = [
     Sub('ortho', ortho_case(), body_ortho, nt, quick=800, thorough=12000, shards_quick=8,
-        classes=['left', 'right', 'both', 'partial', 'deficient', 'zero_core', 'overparam', 'complex', 'size1mode', 'order1']),
+        classes=['left', 'right', 'both', 'partial', 'deficient', 'zero_core', 'aliased_cores', 'overparam', 'complex', 'size1mode', 'order1']),
 ]
